@@ -31,7 +31,15 @@ type C07Case struct {
 func genC07Case(t *rapid.T) C07Case {
 	spec := genSSOWorld(t, worldOpts{minACS: 1, maxACS: 3, signingFlags: true, issuerModes: []string{"static", "static", "host"}, customSSO: true, maxSPs: 3})
 	for i := range spec.SPs {
-		spec.SPs[i].CertLayout = rapid.SampledFrom([]string{"plain", "plain", "wrapped64", "wrapped76", "padded"}).Draw(t, "mdcertlayout")
+		spec.SPs[i].CertLayout = rapid.SampledFrom([]string{"plain", "plain", "wrapped64", "wrapped76", "padded", "indented"}).Draw(t, "mdcertlayout")
+		if len(spec.SPs[i].KeyNames) > 0 && rapid.IntRange(0, 3).Draw(t, "enckeyfirst") == 0 {
+			// a separate encryption certificate, listed before the signing one
+			spec.SPs[i].EncKeyFirst = "sp-2048"
+			if spec.SPs[i].KeyNames[0] == "sp-2048" {
+				spec.SPs[i].EncKeyFirst = "sp-c"
+			}
+			spec.SPs[i].KeyUse = rapid.SampledFrom([]string{"signing", ""}).Draw(t, "keyuse")
+		}
 		if len(spec.SPs[i].SLO) == 0 && rapid.Bool().Draw(t, "addslo") {
 			spec.SPs[i].SLO = []world.SLOSpec{{Binding: world.BindPost, Location: fmt.Sprintf("https://sp%d.example/slo", i)}}
 		}
@@ -78,7 +86,7 @@ func genC07Case(t *rapid.T) C07Case {
 			s.RSign = &spsim.Signing{Alg: alg, KeyName: sp.KeyNames[0]}
 		} else {
 			s.Sign = spsim.Signing{Alg: alg, KeyName: sp.KeyNames[0], KeyInfo: rapid.IntRange(0, 3).Draw(t, "keyinfo") != 0,
-				CertLayout: rapid.SampledFrom([]string{"plain", "wrapped64", "wrapped76", "padded"}).Draw(t, "certlayout"),
+				CertLayout: rapid.SampledFrom([]string{"plain", "wrapped64", "wrapped76", "padded", "indented"}).Draw(t, "certlayout"),
 				DSPrefix:   rapid.SampledFrom([]string{"ds", "dsig", ""}).Draw(t, "dsprefix"),
 				Digest:     rapid.SampledFrom([]string{"", "http://www.w3.org/2000/09/xmldsig#sha1"}).Draw(t, "digest")}
 		}
